@@ -339,3 +339,4 @@ package signing
 //@   requires forall k in 0..len(round.temp.DTelda) :: round.temp.DTelda[k] != nil
 //@   modifies round.number, round.started, round.ok[*], round.temp.signRound8Messages[*], sent(round.out)
 //@   ensures [C01.nothing-sent-on-error] result != nil ==> sent(old(round.out)) == old(sent(round.out))
+
